@@ -903,6 +903,65 @@ func RuleTransport(r *Report, p *Program, rules aspectSet) {
 				}
 			}
 		}
+		// T10 (goroutines, continued): what the goroutine puts into the list is not a view of a buffer it goes on
+		// reading into - a receive buffer allocated once, outside the read loop, and appended as reply[:N] makes every
+		// entry of the list the same memory, overwritten by the next datagram
+		if t10 == "" && !sf.Listen && returnsList(sf.Fn) {
+			for _, mc := range goClosuresOf(sf.Fn) {
+				for _, b := range mc.Blocks {
+					for _, in := range b.Instrs {
+						// make([]byte, n): a MakeSlice, or (constant n) a slice of a fresh array
+						var ms ssa.Value
+						switch x := in.(type) {
+						case *ssa.MakeSlice:
+							ms = x
+						case *ssa.Slice:
+							if al, isAl := x.X.(*ssa.Alloc); isAl && al.Heap {
+								if _, isArr := al.Type().Underlying().(*types.Pointer).Elem().Underlying().(*types.Array); isArr {
+									ms = x
+								}
+							}
+						}
+						if ms == nil || !isByteSlice(ms.Type()) || inLoop(b) || ms.Referrers() == nil {
+							continue
+						}
+						readInLoop := false
+						var views []*ssa.Slice
+						for _, ref := range *ms.Referrers() {
+							switch x := ref.(type) {
+							case ssa.CallInstruction:
+								if inLoop(x.Block()) {
+									readInLoop = true
+								}
+							case *ssa.Slice:
+								views = append(views, x)
+							}
+						}
+						if !readInLoop {
+							continue
+						}
+						for _, sv := range views {
+							if sv.Referrers() == nil {
+								continue
+							}
+							for _, r2 := range *sv.Referrers() {
+								st, ok := r2.(*ssa.Store)
+								if !ok || st.Val != ssa.Value(sv) {
+									continue
+								}
+								if ia, ok := st.Addr.(*ssa.IndexAddr); ok {
+									if al, ok := ia.X.(*ssa.Alloc); ok {
+										if at, ok := al.Type().Underlying().(*types.Pointer).Elem().Underlying().(*types.Array); ok && isByteSlice(at.Elem()) {
+											t10 = "the goroutine appends a view of a receive buffer allocated once outside its read loop (" + p.Pos(ms.Pos()) + "): every entry of the returned list is the same memory, overwritten by the next datagram"
+										}
+									}
+								}
+							}
+						}
+					}
+				}
+			}
+		}
 		emit("T1", t1)
 		emit("T2", t2)
 		emit("T3", t3)
